@@ -542,6 +542,9 @@ func oC18Tune(ix *Index) []Violation {
 			}
 		}
 	}
+	// "changes how many jobs can run simultaneously to the new value, up": a pending job next to a
+	// free slot on a stably Running, settled worker will never be dispatched
+	out = append(out, lostWakeups(ix, "C18")...)
 	if ix.R.Rep.Deadlock && len(ix.Quiesc) > 0 {
 		// nothing can run any more: if the library still counts a job as processing while no
 		// invocation is in progress and none is parked on a gate, a dispatched job was lost in the pool
@@ -578,5 +581,23 @@ func oC08StuckWait(ix *Index) []Violation {
 			out = append(out, v("C08", "wait-blocked-at-zero-pending", "client %d is blocked forever in batch %d Wait although every item has finished or was rejected (NumPending is 0)", c.C, c.G))
 		}
 	}
+	return out
+}
+
+// oC09Resumed: "jobs accepted while the worker is paused or stopped ... are all processed ... after Resume
+// or Restart": at rest, with the worker Running again, no accepted job is left behind, and no pending
+// job sits next to a free slot at a settled point.
+func oC09Resumed(ix *Index) []Violation {
+	var out []Violation
+	if ix.finalRunning() && !ix.R.Rep.Deadlock {
+		for _, n := range ix.JobNums {
+			j := ix.Jobs[n]
+			if j.Accepted == 1 && len(j.Enters) == 0 && !ix.optional(j, ix.N) {
+				out = append(out, v("C09", "left-behind-after-resume", "accepted job %d never ran although the worker is Running again and at rest; final=%+v", n, *ix.Final))
+				break
+			}
+		}
+	}
+	out = append(out, lostWakeups(ix, "C09")...)
 	return out
 }
